@@ -3,6 +3,7 @@ package interp
 // Intercepted environment: every stub here is part of the claim.
 
 import (
+	"sort"
 	"errors"
 	"fmt"
 	"go/token"
@@ -289,6 +290,49 @@ func (i *interpreter) resolveExternal(fn *ssa.Function) externalFn {
 			}
 			return call(i, fr, 0, nf, nil)
 		}
+	case "(*sync.Map).Load", "(*sync.Map).Store", "(*sync.Map).LoadOrStore", "(*sync.Map).Delete", "(*sync.Map).LoadAndDelete":
+		// sync.Map as a map guarded by a lock of its own (each operation is atomic)
+		op := name[len("(*sync.Map)."):]
+		return func(fr *frame, a []value) value {
+			i := fr.i
+			p := fr.nilCheck(a[0].(*value))
+			if i.syncMaps == nil {
+				i.syncMaps = map[*value]*omap{}
+			}
+			m, ok := i.syncMaps[p]
+			if !ok {
+				m = makeMap(types.NewInterfaceType(nil, nil), 0).(*omap)
+				i.syncMaps[p] = m
+			}
+			i.stub("sync.Map as a lock-guarded map")
+			switch op {
+			case "Load":
+				v, has := m.lookup(a[1])
+				if !has {
+					return tuple{iface{}, false}
+				}
+				return tuple{v, true}
+			case "Store":
+				m.insert(a[1], a[2])
+				return nil
+			case "LoadOrStore":
+				if v, has := m.lookup(a[1]); has {
+					return tuple{v, true}
+				}
+				m.insert(a[1], a[2])
+				return tuple{a[2], false}
+			case "Delete":
+				m.delete(a[1])
+				return nil
+			default:
+				v, has := m.lookup(a[1])
+				if !has {
+					return tuple{iface{}, false}
+				}
+				m.delete(a[1])
+				return tuple{v, true}
+			}
+		}
 	case "(*sync.Pool).Put":
 		return func(fr *frame, a []value) value {
 			ps := fr.i.syncPool(fr.nilCheck(a[0].(*value)))
@@ -333,8 +377,21 @@ func (i *interpreter) resolveExternal(fn *ssa.Function) externalFn {
 		}
 	case "runtime.Stack":
 		return func(fr *frame, a []value) value { fr.i.stub("runtime.Stack=0"); return 0 }
-	case "sort.SliceStable", "sort.Slice":
+	case "time.Now":
+		return func(fr *frame, a []value) value { return structure{uint64(0), fr.i.clockTick(), (*value)(nil)} }
+	case "time.Since":
+		return func(fr *frame, a []value) value {
+			now := fr.i.clockTick()
+			return fr.i.binop(token.SUB, types.Typ[types.Int64], now, a[0].(structure)[1])
+		}
+	case "(time.Time).Sub":
+		return func(fr *frame, a []value) value {
+			return fr.i.binop(token.SUB, types.Typ[types.Int64], a[0].(structure)[1], a[1].(structure)[1])
+		}
+	case "sort.SliceStable":
 		return func(fr *frame, a []value) value { fr.i.sliceStable(fr, a[0], a[1]); return nil }
+	case "sort.Slice":
+		return func(fr *frame, a []value) value { fr.i.sliceUnstable(fr, a[0], a[1]); return nil }
 	case "strconv.Atoi":
 		return func(fr *frame, a []value) value {
 			s, ok := a[0].(string)
@@ -608,6 +665,34 @@ func (i *interpreter) sliceStable(fr *frame, x value, less value) {
 			s[b], s[b-1] = s[b-1], s[b]
 		}
 	}
+}
+
+// clockTick is the clock stub: every reading is an arbitrary instant (nanoseconds, in the ext field of the
+// time.Time it is wrapped in) not earlier than the previous one.
+func (i *interpreter) clockTick() value {
+	i.stub("time.Now / time.Since = arbitrary non-decreasing instants")
+	c := i.newSymbol("clock", types.Int64)
+	lo := smt.BVConst(64, 0)
+	if i.lastClock != nil {
+		lo = i.lastClock
+	}
+	i.assertPC(smt.And(smt.BVCmp("bvsle", lo, c.T), smt.BVCmp("bvsle", c.T, smt.BVConst(64, 1<<61))))
+	i.lastClock = c.T
+	return c
+}
+
+// sliceUnstable runs the real sort.Slice (Go's pdqsort, not stable above 12 elements) over the
+// interpreter's own backing array, calling the interpreted less; a symbolic outcome of less forks.
+func (i *interpreter) sliceUnstable(fr *frame, x value, less value) {
+	i.stub("sort.Slice = the real sort.Slice driven by the interpreted less")
+	s := x.(iface).v.([]value)
+	sort.Slice(s, func(a, b int) bool {
+		r := call(i, fr, 0, less, []value{a, b})
+		if rs, ok := r.(sym); ok {
+			return i.branch(rs.T)
+		}
+		return r.(bool)
+	})
 }
 
 // ---- map iteration order -----------------------------------------------------
